@@ -19,6 +19,9 @@ type c06Input struct {
 	Name  string
 	Files map[string]string
 	Args  []string
+	// BinaryOnly: too large to explore (dozens of map ranges over 40 keys); compared on
+	// free runs of the real binary under different CPU counts only
+	BinaryOnly bool
 }
 
 func c06Inputs() []c06Input {
@@ -104,6 +107,22 @@ func c06Inputs() []c06Input {
 		"p.knut": "2020-01-02 price USD 0.9 CHF\n",
 	}
 	in = append(in, c06Input{Name: "deep-diamond-print", Files: deep, Args: []string{"print", "root.knut"}})
+	// group weights are sums of member weights; with many digits the last bits of a float
+	// sum show (quantities 1, 2, 3, 4 at price 1: Stocks = 10% + 20% + 30%)
+	grouped := opens + jr.RenderAll([]jr.Dir{
+		jr.P("2020-01-01", "AAA", "1", "CHF"), jr.P("2020-01-01", "BBB", "1", "CHF"), jr.P("2020-01-01", "CCC", "1", "CHF"), jr.P("2020-01-01", "DDD", "1", "CHF"),
+		jr.T("2020-01-31", "h", jr.B(accOpening, accCash, "1", "AAA"), jr.B(accOpening, accCash, "2", "BBB"), jr.B(accOpening, accCash, "3", "CCC"), jr.B(accOpening, accCash, "4", "DDD")),
+	})
+	in = append(in, c06Input{Name: "weights-groups-15-digits", Files: map[string]string{"j.knut": grouped, "u.yaml": "Stocks: [AAA, BBB, CCC]\nBonds: [DDD]\n"},
+		Args: []string{"portfolio", "weights", "-v", "CHF", "--universe", "u.yaml", "--digits", "15", "--color=false", "j.knut"}})
+	// infer with a large model (40 accounts) in which the candidates are exactly tied
+	var bigTrain strings.Builder
+	bigTrain.WriteString("2020-01-01 open Assets:Bank\n")
+	for i := 0; i < 40; i++ {
+		fmt.Fprintf(&bigTrain, "2020-01-02 \"shop\"\nAssets:Bank Expenses:A%02d 50 USD\n\n", i)
+	}
+	bigTarget := "2020-02-01 \"never seen words\"\nAssets:Bank Expenses:TBD 50 USD\n\n2020-02-02 \"other unseen\"\nAssets:Bank Expenses:TBD 50 USD\n\n"
+	in = append(in, c06Input{Name: "infer-ties-40-accounts", Files: map[string]string{"train.knut": bigTrain.String(), "target.knut": bigTarget}, Args: []string{"infer", "-t", "train.knut", "target.knut"}, BinaryOnly: true})
 	// infer with two equally likely candidates
 	training := "2020-01-01 open Assets:A\n2020-01-02 \"shop\"\nAssets:A Expenses:Food 10 CHF\n\n2020-01-03 \"shop\"\nAssets:A Expenses:Rent 10 CHF\n\n"
 	target := "2020-02-01 \"shop\"\nAssets:A Expenses:TBD 10 CHF\n\n2020-02-02 \"other\"\nExpenses:TBD Assets:A 5 CHF\n\n"
@@ -175,7 +194,7 @@ func c06Run(e *core.Env) {
 	bounds := c06Bounds(e)
 	e.Note("%d inputs, bounds %v + global map-order policies (reverse, rotate)", len(ins), bounds)
 	for _, in := range ins {
-		if !e.Take() {
+		if in.BinaryOnly || !e.Take() {
 			continue
 		}
 		key, detail, cs, st, nout := c06Explore(e, drv, in, bounds, core.Pick(e, 150000, 1500000))
@@ -215,7 +234,8 @@ func c06Binary(e *core.Env, drv *core.Driver, ins []c06Input) {
 		drv.Files(in.Files)
 		first := ""
 		for i := 0; i < reps; i++ {
-			o := drv.RunBinary(in.Args...)
+			// "irrespective of ... the number of CPUs": all CPUs, 1, 2 and 4 in turn
+			o := drv.RunBinaryProcs([]string{"", "1", "2", "4"}[i%4], in.Args...)
 			k := o.Key()
 			e.Count("traces_validated_against_impl")
 			if first == "" {
